@@ -1,13 +1,13 @@
 #!/bin/bash
 # tools/confirm_seed.sh <Cxx> <n>: confirm in the scratch worktree that patch n keeps the test-suite green, its demo fails with it and passes without
-id=$1; n=$2; wt=/tmp/seed/$id; out=/tmp/seed/out/$id
+id=$1; n=$2; wt=/tmp/seed/$id; out=${SEED_OUT:-/tmp/seed/out}/$id
 cd $wt || exit 2
 git checkout -q -- . ; git clean -fdq -e __pycache__ >/dev/null 2>&1
 [ -f $out/patch$n.diff ] || { echo "$id/$n: no patch"; exit 2; }
 git apply $out/patch$n.diff || { echo "$id/$n: patch does not apply"; exit 2; }
 export NUMBA_CACHE_DIR=/tmp/seed/nbcache_$id
-/venv/bin/python -m pytest -q -p no:cacheprovider --timeout=900 -x > /tmp/seed/out/$id/tests$n.log 2>&1; t=$?
-tests=$(tail -1 /tmp/seed/out/$id/tests$n.log)
+/venv/bin/python -m pytest -q -p no:cacheprovider --timeout=900 -x > $out/tests$n.log 2>&1; t=$?
+tests=$(tail -1 $out/tests$n.log)
 /venv/bin/python $out/demo$n.py > $out/demo$n.with.log 2>&1; dw=$?
 git checkout -q -- .
 /venv/bin/python $out/demo$n.py > $out/demo$n.without.log 2>&1; dwo=$?
